@@ -137,7 +137,7 @@ theorem ingestPre_flat (s : List Rec) (now : Ms) (recs : List Rec) :
 /-- when every withdrawn record is still cached the D24 filter keeps them all -/
 theorem Flat.keptRemoves_eq_self (s : List Rec) (rs : List Rec) (hpres : ∀ r ∈ rs, ∃ e ∈ s, e.beq lower r = true) :
     keptRemoves (Flat.ops lower) s rs = rs := by
-  unfold keptRemoves
+  unfold keptRemoves keptRemovesWith
   rw [List.filter_eq_self]
   intro r hr
   rw [removes_keep_test_eq]
